@@ -25,6 +25,10 @@ pub fn plan(prop: &str, tier: Tier) -> Option<(&'static str, Vec<Job>)> {
             Job::new("permhist", if q { 800 } else { 30_000 }),
         ],
         "C10" => vec![Job::new("creds", if q { 800 } else { 30_000 })],
+        "C11" => vec![
+            Job::new("journal-tamper", if q { 128 } else { 6_000 }).timeout(600).shrink(12),
+            Job::new("journal-sched", if q { 1600 } else { 60_000 }).shrink(60),
+        ],
         "C13" => vec![
             Job::new("wire", if q { 40_000 } else { 1_500_000 }),
             Job::new("catalogue", if q { 600 } else { 20_000 }).caches(&["off", "big"]),
